@@ -21,6 +21,8 @@ def main():
             else:
                 caught.append("%s ✘ MISSED" % prop)
         summ = re.sub(r"\s+", " ", m.get("summary", ""))[:170]
+        if m.get("not_counted"):
+            caught = ["not counted: " + re.sub(r"\s+", " ", m.get("lead_note", ""))[:150]]
         rows.append("| `%s` | %s | %s | %s | %s |" % (d, ", ".join(m.get("properties", [m.get("property")])), m.get("kind", m.get("origin", "sub-agent change"))[:40], summ, "; ".join(caught) or "not run yet"))
     table = "| seeded change | breaks | origin | what it does | checks run → verdict |\n|---|---|---|---|---|\n" + "\n".join(rows)
     p = os.path.join(VERIF, "DESIGN.md")
